@@ -26,10 +26,9 @@ def digitsRev (b : Nat) : Nat → Nat → List Nat
 /-- text of the magnitude `x` (`push_front` of each digit). 64 iterations suffice for a `u64`. -/
 def magText (b x : Nat) : List Nat := ((digitsRev b 64 x).map digitChar).reverse
 
-/-- `format_radix(x, radix)`; `-x` overflows for `i64::MIN` (overflow checks on: panic). -/
+/-- `format_radix(x, radix)`: sign, then the digits of `x.unsigned_abs()` (defined for every `i64`). -/
 def formatRadix (n : Int) (b : Nat) : Res (List Nat) :=
-  if n < 0 then
-    if n = i64Min then .panic else .ok (45 :: magText b (-n).toNat)
+  if n < 0 then .ok (45 :: magText b (-n).toNat)
   else .ok (magText b n.toNat)
 
 /-- `format_int(value, base)`; an absent `base` argument is `10` (`formatInt v (.int 10)`). -/
